@@ -512,7 +512,15 @@ SCALARS = [(0, 0), (1, 0), (-1, 0), (2, 0), (-2, 0), (3, 0), (0, 1), (0, -1), (0
 DIVISORS = [(2, 0), (-2, 0), (0, 2), (0, -2), (0, 1), (0, -1), (-1, 0), (1, 1), (1, -1), (4, 0), (3, 0), (2, 2), (1, 2)]
 
 
-def rand_coef(rng, allow_zero=True):
+NEAR_OPPOSITE_INTS = [(10**9 + 1, 0), (-(10**9), 0), (10**9, 0), (-(10**9) - 1, 0), (0, 10**9 + 1), (0, -(10**9)), (2**31 + 1, 0), (-(2**31), 0),
+                      (10**9 + 1, 10**9), (-(10**9), -(10**9))]
+
+
+def rand_coef(rng, allow_zero=True, wide=False):
+    """small Gaussian integers; wide=True (operator programs only: the model is exact and products are magnitude-guarded) adds large
+    integers that are nearly but not exactly opposite to each other"""
+    if wide and rng.random() < 0.12:
+        return rng.choice(NEAR_OPPOSITE_INTS)
     r = rng.random()
     if allow_zero and r < 0.08:
         return (0, 0)
@@ -569,7 +577,7 @@ class Program:
             if items and rng.random() < 0.15:
                 ps = items[rng.randrange(len(items))][0]
                 l = build_label(rng, ps, rng.choice(ROUTES))
-            c = rand_coef(rng)
+            c = rand_coef(rng, wide=True)
             items.append((ps, c))
             real_items.append((l, py_scalar(rng, c)))
         style = rng.random()
@@ -691,14 +699,14 @@ class Program:
                 c = ref.gneg(R[i][frozenset(ps)])
                 self.features.add("cancel")
             else:
-                c = rand_coef(rng)
+                c = rand_coef(rng, wide=True)
             H[i].add_term(l, py_scalar(rng, c))
             R[i] = ref.Ref(R[i])
             R[i].acc(frozenset(ps), c)
             self.cmds.append(f"addterm {i} {enc_pairs(ps)} {enc_k(c)}")
             return
         if kind == "setconst":
-            c = rand_coef(rng)
+            c = rand_coef(rng, wide=True)
             H[i].constant = py_scalar(rng, c)
             R[i] = ref.Ref(R[i])
             ref_set(R[i], [], c)
@@ -706,7 +714,7 @@ class Program:
             return
         if kind == "setitem":
             ps, l, route = self.known_label(i)
-            c = rand_coef(rng)
+            c = rand_coef(rng, wide=True)
             H[i][l] = py_scalar(rng, c)
             R[i] = ref.Ref(R[i])
             ref_set(R[i], ps, c)
@@ -1922,10 +1930,328 @@ def forms_trotter(ctx: Ctx):
             ctx.witness("trotter", f"the returned list cannot be evaluated: {type(e).__name__}: {e}", inp)
 
 
+# ---------------------------------------------------------------------------
+# exactness over the whole range of exactly representable coefficients: nearly (but not exactly) opposite coefficients,
+# very small and very large magnitudes.  Oracle: Fractions; a case is judged only when every intermediate value of the
+# documented computation is itself a binary floating point number, so that `==` is the right comparison.
+# ---------------------------------------------------------------------------
+class _Inexact(Exception):
+    pass
+
+
+def _frep(q):
+    try:
+        from fractions import Fraction
+
+        return Fraction(float(q)) == q
+    except OverflowError:
+        return False
+
+
+def _fx(q):
+    if not _frep(q):
+        raise _Inexact()
+    return q
+
+
+def _fadd(a, b):
+    return (_fx(a[0] + b[0]), _fx(a[1] + b[1]))
+
+
+def _fmul(a, b):
+    return (_fx(_fx(a[0] * b[0]) - _fx(a[1] * b[1])), _fx(_fx(a[0] * b[1]) + _fx(a[1] * b[0])))
+
+
+def _fneg(a):
+    return (-a[0], -a[1])
+
+
+def _fz(a):
+    return a[0] == 0 and a[1] == 0
+
+
+class FOp(dict):
+    """exact operator {frozenset(pairs): (Fraction, Fraction)}; arithmetic raises _Inexact when binary floating point would round"""
+
+    def acc(self, l, c):
+        if _fz(c):
+            return
+        v = _fadd(self.get(l, (0, 0)), c)
+        if _fz(v):
+            self.pop(l, None)
+        else:
+            self[l] = v
+
+    def plus(self, o, sign=1):
+        r = FOp(self)
+        for l, c in o.items():
+            r.acc(l, c if sign == 1 else _fneg(c))
+        return r
+
+    def times(self, o):
+        from fractions import Fraction
+
+        r = FOp()
+        for p, c in self.items():
+            for q, d in o.items():
+                l, e = ref.label_mul(p, q)
+                u = ref.I_UNIT[e]
+                r.acc(l, _fmul(_fmul(c, d), (Fraction(u[0]), Fraction(u[1]))))
+        return r
+
+    def scaled(self, k):
+        r = FOp()
+        for l, c in self.items():
+            r[l] = _fmul(c, k)
+        return r
+
+
+def _f_scalar(rng, c):
+    """a Python number equal to the exact value c = (Fraction, Fraction)"""
+    re, im = c
+    if im == 0:
+        if re.denominator == 1 and abs(re) < 2**53 and rng.random() < 0.5:
+            return int(re)
+        return float(re) if rng.random() < 0.7 else complex(float(re), 0.0)
+    return complex(float(re), float(im))
+
+
+def _f_of(c):
+    """exact value of a stored coefficient, None when it is not a finite number"""
+    from fractions import Fraction
+
+    try:
+        if isinstance(c, int):
+            return (Fraction(int(c)), Fraction(0))
+        z = complex(c)
+        return (Fraction(z.real), Fraction(z.imag))
+    except (ValueError, OverflowError, TypeError):
+        return None
+
+
+def _f_show(c):
+    def one(q):
+        if q == 0:
+            return "0"
+        f = float(q)
+        return repr(int(q)) if q.denominator == 1 and abs(q) < 10**18 else f.hex()
+    return one(c[0]) if c[1] == 0 else f"({one(c[0])}, {one(c[1])}j)"
+
+
+def _f_desc(o):
+    return " + ".join(f"{_f_show(c)}*[{enc_pairs(sorted(l))}]" for l, c in o.items()) or "0"
+
+
+def near_opposite_pair(rng):
+    """(family, c, d): exactly representable coefficients whose exact sum is zero, tiny relative to them, tiny in absolute terms, or ordinary"""
+    from fractions import Fraction as F
+
+    while True:
+        fam = rng.choice(["int", "int", "dyadic", "dyadic", "complex", "exact", "tiny", "tiny-vs-big", "ordinary"])
+        if fam == "int":
+            n = rng.choice([10**9, 10**9, 2**31, 2**32, 10**12, 2**40, 10**15, 2**52])
+            c, d = (F(n + rng.choice([1, 1, 2, -1, 3])), F(0)), (F(-n), F(0))
+        elif fam == "dyadic":
+            k = rng.choice([20, 28, 30, 31, 31, 32, 35, 40, 48, 52])
+            m = F(rng.choice([1, 1, 1, 3, 5])) * F(2) ** rng.choice([0, 0, 0, -1, 1, -20, 20, -200, 300])
+            c, d = (m * (1 + F(1, 2**k)), F(0)), (-m, F(0))
+            if rng.random() < 0.3:  # the same relation on the imaginary axis
+                c, d = (F(0), c[0]), (F(0), d[0])
+        elif fam == "complex":
+            k = rng.choice([24, 28, 31, 36, 44])
+            e = F(1, 2**k)
+            base = rng.choice([(3, 4), (1, 1), (-2, 5), (8, -6)])
+            bump = rng.choice([(e, 0), (0, e), (e, e), (-e, 2 * e)])
+            c, d = (F(base[0]) + bump[0], F(base[1]) + bump[1]), (F(-base[0]), F(-base[1]))
+        elif fam == "exact":
+            _, c, _ = near_opposite_pair(rng)
+            d = _fneg(c)
+        elif fam == "tiny":
+            j = rng.choice([30, 40, 60, 100, 200, 500, 1000, 1022, 1070, 1074])
+            t = F(1, 2**j)
+            c, d = (t * rng.choice([1, 1, 3, -1]), F(0)), (t * rng.choice([1, -3, 2]) / rng.choice([1, 1, 2] if j < 1074 else [1]), F(0))
+        elif fam == "tiny-vs-big":  # the sum is representable: few significant bits on both sides
+            j = rng.choice([20, 30, 40, 50])
+            c, d = (F(rng.choice([1, 2, -4])), F(0)), (F(rng.choice([1, -1]), 2**j), F(0))
+        else:
+            c, d = tuple(map(F, rand_coef(rng, False))), tuple(map(F, rand_coef(rng, False)))
+        if rng.random() < 0.5:
+            c, d = _fneg(c), _fneg(d)
+        if rng.random() < 0.5:
+            c, d = d, c
+        if all(_frep(x) for x in c + d) and not _fz(c) and not _fz(d):
+            return fam, c, d
+
+
+def forms_exact_range(ctx: Ctx):
+    """sums / differences / in-place histories / products / commutators / scalar multiples and both exports on coefficients whose exact
+    sum is zero, nearly zero or far from zero: the stored result must be EXACTLY the sum (a term whose coefficients do not cancel exactly
+    stays, with the exact residual; a term whose coefficients cancel exactly disappears)"""
+    from fractions import Fraction as F
+
+    from quri_parts.core.operator import Operator, commutator, get_sparse_matrix, transition_amp_comp_basis, transition_amp_representation
+
+    rng = ctx.rng
+    pool, nq = [0, 1, 2], 3
+
+    def real_of(fo, shuffle=True):
+        op = Operator()
+        items = list(fo.items())
+        if shuffle:
+            rng.shuffle(items)
+        for l, c in items:
+            op[build_label(rng, sorted(l), rng.choice(ROUTES))] = _f_scalar(rng, c)
+        return op
+
+    def judge(route, got_op, want, inp):
+        got = {}
+        for l, c in got_op.items():
+            got[frozenset(canon_label(l))] = _f_of(c)
+        if got != dict(want):
+            lost = [l for l in want if l not in got]
+            kept = [l for l in got if l not in want]
+            what = ("loses a term whose coefficients do not cancel exactly" if lost else
+                    "keeps a term whose coefficients cancel exactly" if kept else "stores a coefficient that is not the exact sum")
+            ctx.witness("sum-not-exact", f"{route}: the result {what} (every intermediate value is exactly representable)", dict(inp, route=route),
+                        {"result": " + ".join(f"{'?' if c is None else _f_show(c)}*[{enc_pairs(sorted(l))}]" for l, c in got.items()) or "0",
+                         "exact": _f_desc(want)})
+            return False
+        return True
+
+    def exports(route, op, want, inp):
+        """the exports of an exactly known operator: entries whose contributions sum exactly in any order"""
+        if not want or rng.random() < 0.8:
+            return
+        try:
+            rep = transition_amp_representation(op)
+            arr = get_sparse_matrix(op, nq).toarray() if len(op) else None
+        except Exception as e:  # noqa: BLE001
+            ctx.witness("raises", f"export raises {type(e).__name__}: {e}", dict(inp, route=route))
+            return
+        import itertools
+
+        for m in range(8):
+            for n in range(8):
+                contrib = []
+                for l, c in want.items():
+                    e = ref.label_entry(sorted(l), m, n)
+                    if e != (0, 0):
+                        contrib.append(_fmul(c, (F(e[0]), F(e[1]))))
+                try:
+                    for k in range(2, len(contrib) + 1):
+                        for sub in itertools.combinations(contrib, k):
+                            t = (F(0), F(0))
+                            for x in sub:
+                                t = _fadd(t, x)
+                except _Inexact:
+                    continue
+                tot = (sum((x[0] for x in contrib), F(0)), sum((x[1] for x in contrib), F(0)))
+                g1 = _f_of(transition_amp_comp_basis(rep, m, n))
+                g2 = _f_of(arr[m][n]) if arr is not None else tot
+                if g1 != tot or g2 != tot:
+                    ctx.witness("export-not-exact", f"{'transition amplitude' if g1 != tot else 'sparse export'} <{m}|O|{n}> differs from the exact entry",
+                                dict(inp, route=route, m=m, n=n), {"operator": _f_desc(want), "exact": _f_show(tot),
+                                                                   "got": _f_show(g1 if g1 != tot else g2) if (g1 if g1 != tot else g2) else "nan"})
+                    return
+
+    for _ in range(ctx.n(250, 4000)):
+        fam, c, d = near_opposite_pair(rng)
+        lab = frozenset(rand_valid_pairs(rng, pool))
+        fill = FOp()
+        for _ in range(rng.choice([0, 1, 2])):
+            l2 = frozenset(rand_valid_pairs(rng, pool))
+            if l2 != lab:
+                fill[l2] = tuple(map(F, rand_coef(rng, False)))
+        fa, fb = FOp(fill), FOp()
+        fa[lab] = c
+        fb[lab] = d
+        if rng.random() < 0.5:
+            _, c2, d2 = near_opposite_pair(rng)
+            l2 = frozenset(rand_valid_pairs(rng, pool))
+            if l2 != lab:
+                fa[l2], fb[l2] = c2, d2
+        inp = {"family": fam, "a": _f_desc(fa), "b": _f_desc(fb)}
+        ctx.traces += 1
+        ctx.count("exact_range_family", fam)
+        routes = []
+        # accumulation routes
+        routes.append(("a.add_term(label, d)", lambda: fa.plus(FOp({lab: d})), lambda a, b: (a.add_term(build_label(rng, sorted(lab), rng.choice(ROUTES)), _f_scalar(rng, d)), a)[1]))
+        routes.append(("a + b", lambda: fa.plus(fb), lambda a, b: a + b))
+        routes.append(("b + a", lambda: fb.plus(fa), lambda a, b: b + a))
+        routes.append(("a - (-b)", lambda: fa.plus(fb), None))
+        routes.append(("a += b", lambda: fa.plus(fb), lambda a, b: a.__iadd__(b)))
+        routes.append(("a -= (-b)", lambda: fa.plus(fb), None))
+        routes.append(("a += b/2 ; a += b/2", lambda: fa.plus(fb.scaled((F(1, 2), F(0)))).plus(fb.scaled((F(1, 2), F(0)))), None))
+        routes.append(("(a + b) + b - b", lambda: fa.plus(fb).plus(fb).plus(fb, -1), lambda a, b: (a + b) + b - b))
+        routes.append(("(a + b) * 2^k", None, None))
+        routes.append(("(P+Q) * (cP + dQ)", None, None))
+        routes.append(("commutator", None, None))
+        for name, exact, run_real in routes:
+            a, b = real_of(fa), real_of(fb)
+            ctx.count("exact_range_route", name)
+            try:
+                if name == "a - (-b)":
+                    nb = real_of(fb.scaled((F(-1), F(0))))
+                    want, got = exact(), a - nb
+                elif name == "a -= (-b)":
+                    nb = real_of(fb.scaled((F(-1), F(0))))
+                    want = exact()
+                    a -= nb
+                    got = a
+                elif name == "a += b/2 ; a += b/2":
+                    hb = fb.scaled((F(1, 2), F(0)))
+                    want = exact()
+                    a += real_of(hb)
+                    a += real_of(hb)
+                    got = a
+                elif name == "(a + b) * 2^k":
+                    k = (F(2) ** rng.choice([-40, -3, -1, 1, 10, 60]) * rng.choice([1, -1]), F(0))
+                    want = fa.plus(fb).scaled(k)
+                    ks = _f_scalar(rng, k)
+                    got = rng.choice([lambda: (a + b) * ks, lambda: ks * (a + b), lambda: (a + b) / _f_scalar(rng, (1 / k[0], F(0)))])()
+                elif name == "(P+Q) * (cP + dQ)":
+                    P = frozenset(rand_valid_pairs(rng, pool))
+                    Q = frozenset(rand_valid_pairs(rng, pool))
+                    if P == Q:
+                        continue
+                    u = rng.choice([(F(1), F(0)), (F(-1), F(0)), (F(2), F(0)), (F(1, 2), F(0)), (F(0), F(1))])
+                    f1, f2 = FOp({P: u, Q: u}), FOp({P: c, Q: d})
+                    if rng.random() < 0.5:
+                        f1, f2 = f2, f1
+                    inp = dict(inp, a=_f_desc(f1), b=_f_desc(f2))
+                    want = f1.times(f2)
+                    got = real_of(f1, False) * real_of(f2, False)
+                elif name == "commutator":
+                    P = frozenset(rand_valid_pairs(rng, pool))
+                    Q = frozenset(rand_valid_pairs(rng, pool))
+                    R = frozenset(rand_valid_pairs(rng, pool))
+                    f1, f2 = FOp({P: c}), FOp({Q: (F(1), F(0))})
+                    f1.acc(R, d)
+                    f2.acc(frozenset(ref.label_mul(ref.label_mul(R, P)[0], Q)[0]), (F(1), F(0)))  # R*S lands on the label of P*Q
+                    inp = dict(inp, a=_f_desc(f1), b=_f_desc(f2))
+                    want = f1.times(f2).plus(f2.times(f1), -1)
+                    got = commutator(real_of(f1, False), real_of(f2, False))
+                else:
+                    want = exact()
+                    got = run_real(a, b)
+            except _Inexact:
+                ctx.count("exact_range_route", name + " (rounds: not judged)")
+                continue
+            except Exception as e:  # noqa: BLE001
+                ctx.witness("raises", f"{name} raises {type(e).__name__}: {e}", inp)
+                continue
+            if judge(name, got, want, inp):
+                try:
+                    exports(name, got, want, inp)
+                except _Inexact:
+                    pass
+
+
 def check_forms(ctx: Ctx):
     for name, fn in [("operands", forms_operands), ("errors", forms_errors), ("accessors", forms_accessors), ("predicates", forms_predicates),
                      ("operator_str", forms_operator_str), ("commute", forms_commute), ("fresh_results", forms_fresh_results),
-                     ("histories", forms_histories), ("big_register", forms_big_register), ("trotter", forms_trotter)]:
+                     ("histories", forms_histories), ("big_register", forms_big_register), ("trotter", forms_trotter),
+                     ("exact_range", forms_exact_range)]:
         _section(ctx, name, fn)
 
 
